@@ -57,6 +57,42 @@ def leaf_cases(ck, coq_in):
             ck.violation("component-outside-space:service", "service state (%d,%d,%d) encodes as %s" % (op, ha, hv, o), {"state": [op, ha, hv]})
     if not svc.space.contains(svc.observe({"network": {"nodes": {}}})):
         ck.violation("default-outside-space:service", "absent service default not in space", {})
+    # every value of every simulator enumeration, for the other component kinds too
+    from primaite.game.agent.observations.file_system_observations import FolderObservation
+    from primaite.simulator.system.applications.application import ApplicationOperatingState
+    from primaite.simulator.system.software import SoftwareHealthState
+    from primaite.simulator.file_system.file_system_item_abc import FileSystemItemHealthStatus
+    th = {"nmne": {"low": 0, "medium": 5, "high": 10}, "app_executions": {"low": 0, "medium": 5, "high": 10}, "file_access": {"low": 0, "medium": 5, "high": 10}}
+    for rs in (True, False):
+        app = ApplicationObservation(where=["network", "nodes", "h", "applications", "a"], applications_requires_scan=rs, thresholds=th)
+        for op, ha, hv, ex in itertools.product([e.value for e in ApplicationOperatingState], [e.value for e in SoftwareHealthState], [e.value for e in SoftwareHealthState], (0, 1, 7, 30)):
+            st = {"network": {"nodes": {"h": {"applications": {"a": {"operating_state": op, "health_state_actual": ha, "health_state_visible": hv, "num_executions": ex}}}}}}
+            o = app.observe(st)
+            ck.case(canon=("app", rs, op, ha, hv, ex), nontrivial=True)
+            if not app.space.contains(o):
+                ck.violation("component-outside-space:application", "application state (operating %d, health %d/%d, %d executions) encodes as %s, not in %s" % (op, ha, hv, ex, o, app.space),
+                             {"state": [op, ha, hv, ex], "requires_scan": rs})
+        if not app.space.contains(app.observe({"network": {"nodes": {}}})):
+            ck.violation("default-outside-space:application", "absent application default not in space", {})
+        fil = FileObservation(where=["network", "nodes", "h", "file_system", "folders", "d", "files", "f"], include_num_access=True, file_system_requires_scan=rs, thresholds=th)
+        fol = FolderObservation(where=["network", "nodes", "h", "file_system", "folders", "d"], files=[], num_files=1, include_num_access=True, file_system_requires_scan=rs, thresholds=th)
+        for hs, vs, acc, scanned in itertools.product([e.value for e in FileSystemItemHealthStatus], [e.value for e in FileSystemItemHealthStatus], (0, 1, 7, 30), (False, True)):
+            fst = {"health_status": hs, "visible_status": vs, "num_access": acc}
+            st = {"network": {"nodes": {"h": {"file_system": {"folders": {"d": {"health_status": hs, "visible_status": vs, "scanned_this_step": scanned, "files": {"f": fst}}}}}}}}
+            for nm2, ob in (("file", fil), ("folder", fol)):
+                o = ob.observe(st)
+                ck.case(canon=(nm2, rs, hs, vs, acc, scanned), nontrivial=True)
+                if not ob.space.contains(o):
+                    ck.violation("component-outside-space:%s" % nm2, "%s state (health %d, visible %d, %d accesses) encodes as %s, not in %s" % (nm2, hs, vs, acc, o, ob.space), {"state": [hs, vs, acc]})
+    nicm = NICObservation(where=["network", "nodes", "h", "NICs", 1], include_nmne=True, monitored_traffic={"tcp": [80], "icmp": ["NONE"]}, thresholds=th)
+    for enabled, t80, ticmp, nm_in in itertools.product((True, False), (0, 0.5, 100, 250), (0, 3, 100, 1000), (0, 1, 7, 30)):
+        st = {"network": {"nodes": {"h": {"NICs": {1: {"enabled": enabled, "speed": 100, "traffic": {"tcp": {80: {"inbound": t80, "outbound": t80 / 2}}, "icmp": {"inbound": ticmp, "outbound": 0}},
+                                                         "nmne": {"direction": {"inbound": {"keywords": {"*": nm_in}}}}}}}}}}
+        o = nicm.observe(st)
+        ck.case(canon=("nic", enabled, t80, ticmp, nm_in), nontrivial=True)
+        if not nicm.space.contains(o):
+            ck.violation("component-outside-space:interface", "interface state (enabled %s, tcp/80 %s, icmp %s, %d events) encodes as %s, not in its space" % (enabled, t80, ticmp, nm_in, o),
+                         {"state": [enabled, t80, ticmp, nm_in], "where": obswalk.first_outside(nicm.space, o)})
     for n_svc, n_app, n_fold, n_file, n_nic in ((0, 0, 0, 0, 0), (2, 1, 1, 2, 1), (3, 0, 2, 1, 2)):
         for acc, usr, nm in itertools.product((False, True), (False, True), (False, True)):
             h = HostObservation(where=["network", "nodes", "h"], services=[], applications=[], folders=[], network_interfaces=[], num_services=n_svc,
